@@ -76,7 +76,82 @@ async fn late_link(idx: usize) -> Value {
     json!({"adversarial": "late_link", "link_ok": link_ok, "p1_resolved_at_link": p1_resolved_at_link, "p1_gone": gone, "p2_exit_notices": p2_notices.len(), "notes": notes})
 }
 
+/// a watcher that stalls in its handler on the message `block` until the gate opens (everything else is recorded)
+struct Gated {
+    log: Arc<Mutex<Vec<Value>>>,
+    gate: Arc<tokio::sync::Notify>,
+}
+impl edp_node::Process for Gated {
+    async fn handle_message(&mut self, msg: edp_node::Message) -> edp_node::Result<()> {
+        let d = match &msg {
+            edp_node::Message::Regular { body, .. } => {
+                if matches!(body, OwnedTerm::Atom(x) if x.as_str() == "block") {
+                    self.gate.notified().await;
+                }
+                json!({"k": "regular"})
+            }
+            edp_node::Message::Exit { from, .. } => json!({"k": "exit", "from": from.id}),
+            edp_node::Message::MonitorExit { monitored, reference, .. } => json!({"k": "monitor_exit", "from": monitored.id, "ref": reference.ids}),
+            _ => json!({"k": "other"}),
+        };
+        self.log.lock().unwrap().push(d);
+        Ok(())
+    }
+}
+
+/// back-pressure: the linked and monitoring watcher is stalled with a full mailbox when the target terminates; once it
+/// drains, it must find exactly one exit notice and one down notice (LocalProc: notices are appended regardless of load)
+async fn full_mailbox(idx: usize) -> Value {
+    let mut node = Node::new(format!("fm{}@127.0.0.1", idx % 5 + 1), COOKIE);
+    if node.start(0).await.is_err() {
+        return json!({"tool_error": "node start"});
+    }
+    let node = Arc::new(node);
+    let log = Arc::new(Mutex::new(Vec::new()));
+    let tlog = Arc::new(Mutex::new(Vec::new()));
+    let gate = Arc::new(tokio::sync::Notify::new());
+    let w = node.spawn(Gated { log: log.clone(), gate: gate.clone() }).await.expect("spawn");
+    let t = node.spawn(Recorder { tag: "t".into(), log: tlog.clone() }).await.expect("spawn");
+    let link_ok = node.link(&w, &t).await.is_ok();
+    let mref = node.monitor(&w, &t).await.ok();
+    let _ = node.send(&w, a("block")).await;
+    tokio::time::sleep(Duration::from_millis(20)).await;
+    // fill the watcher's mailbox to the brim
+    let mut queued = 0usize;
+    loop {
+        match tokio::time::timeout(Duration::from_millis(30), node.send(&w, OwnedTerm::Integer(queued as i64))).await {
+            Ok(Ok(())) => queued += 1,
+            _ => break,
+        }
+        if queued > 100_000 {
+            break;
+        }
+    }
+    let _ = node.send(&t, a("die")).await;
+    tokio::time::sleep(Duration::from_millis(150)).await;
+    let target_gone_while_watcher_full = node.registry().get(&t).await.is_none();
+    // the watcher drains
+    gate.notify_one();
+    for _ in 0..200 {
+        tokio::time::sleep(Duration::from_millis(10)).await;
+        let l = log.lock().unwrap();
+        if l.iter().filter(|e| e["k"] == "exit" || e["k"] == "monitor_exit").count() >= 2 && true {
+            break;
+        }
+    }
+    let l = log.lock().unwrap().clone();
+    let exits = l.iter().filter(|e| e["k"] == "exit" && e["from"] == t.id).count();
+    let downs: Vec<Value> = l.iter().filter(|e| e["k"] == "monitor_exit" && e["from"] == t.id).cloned().collect();
+    let regular = l.iter().filter(|e| e["k"] == "regular").count();
+    json!({"adversarial": "full_mailbox", "link_ok": link_ok, "monitor_ok": mref.is_some(), "queued_until_full": queued, "target_gone_while_watcher_full": target_gone_while_watcher_full,
+           "regular_handled": regular, "exit_notices": exits, "down_notices": downs.len(), "down_ref_matches": mref.as_ref().map(|r| downs.iter().all(|d| d["ref"] == json!(r.ids))),
+           "target_gone": node.registry().get(&t).await.is_none(), "notes": Vec::<String>::new()})
+}
+
 async fn run_one(sc: &Value, idx: usize) -> Value {
+    if sc["adversarial"].as_str() == Some("full_mailbox") {
+        return full_mailbox(idx).await;
+    }
     if sc["adversarial"].as_str() == Some("late_link") {
         return late_link(idx).await;
     }
